@@ -1219,6 +1219,38 @@ class Interp:
             r = xa ^ xb
         return z3.BV2Int(r, False)
 
+    def format_text(self, fmt, args):
+        """'%s%.03d.%s' % (...) computed exactly when every conversion is %s of (symbolic) text or an integer conversion of a
+        concrete int; None otherwise (the caller then produces an opaque message text)"""
+        import re as _re
+        from .stdlib import SStr, cps, mk_str
+        out = []
+        pos = 0
+        k = 0
+        for m in _re.finditer(r'%(?:%|([-0 +#]*\d*(?:\.\d+)?[sdiuxX]))', fmt):
+            out += [ord(ch) for ch in fmt[pos:m.start()]]
+            pos = m.end()
+            if m.group(0) == '%%':
+                out.append(37)
+                continue
+            if k >= len(args):
+                return None
+            arg = args[k]
+            k += 1
+            spec = m.group(1)
+            if spec[-1] == 's':
+                if spec != 's' or not isinstance(arg, (str, SStr)):
+                    return None
+                out += cps(arg)
+            else:
+                if is_sym(arg) or not isinstance(arg, int):
+                    return None
+                out += [ord(ch) for ch in ('%' + spec) % arg]
+        if k != len(args) or '%' in _re.sub(r'%(?:%|[-0 +#]*\d*(?:\.\d+)?[sdiuxX])', '', fmt):
+            return None
+        out += [ord(ch) for ch in fmt[pos:]]
+        return mk_str(out)
+
     def binop(self, op, a, b, node, frame, inplace=False):
         if isinstance(a, Lazy) or isinstance(b, Lazy):
             raise Unsupported((a if isinstance(a, Lazy) else b).why)
@@ -1231,6 +1263,10 @@ class Interp:
                 if is_sym(n):
                     raise Unsupported('symbolic text repeated a symbolic number of times')
                 return mk_str(cps(t) * max(0, n))
+            if isinstance(op, ast.Mod) and isinstance(a, str):
+                exact = self.format_text(a, (b,))
+                if exact is not None:
+                    return exact
             raise Unsupported('operator %s on symbolic text at %s' % (type(op).__name__, self.here(node, frame)))
         a_b = V.is_bytes(a)
         b_b = V.is_bytes(b)
@@ -1241,6 +1277,9 @@ class Interp:
         if isinstance(a, str) and isinstance(op, ast.Mod):
             from .stdlib import has_sym
             if has_sym(b) or (isinstance(b, tuple) and any(has_sym(x) for x in b)):
+                exact = self.format_text(a, b if isinstance(b, tuple) else (b,))
+                if exact is not None:
+                    return exact
                 return '<message formatted from symbolic values>'
         if isinstance(a, V.ABytes) or isinstance(b, V.ABytes):
             raise Unsupported('operator on symbolic-length bytes at %s' % self.here(node, frame))
@@ -1518,6 +1557,8 @@ class Interp:
         return a == b
 
     def contains(self, container, item, node, frame):
+        if hasattr(container, '_pyvc_contains'):
+            return container._pyvc_contains(self, item)
         if isinstance(container, (tuple, list, set, frozenset)):
             if not is_sym(item) and not isinstance(item, (SBytes, Obj)) and all(not is_sym(x) and not isinstance(x, (SBytes, Obj)) for x in container):
                 return item in container
